@@ -13,7 +13,12 @@ the first listed one (so the runner counts the hit).
 from __future__ import annotations
 
 import fnmatch
+import json
 import os
+import shutil
+import subprocess
+import sys
+import tempfile
 
 from vlib import c13_corpus as corpus
 from vlib import c13_findings as findings
@@ -29,25 +34,47 @@ RULE = (
     'hostile-strings: well-formed OPEN (hostname/domain capability 73, software version 75, unknown capability), NOTIFICATION 6/2 and 6/4 with a '
     'shutdown communication (right / wrong length octet, trailer) and other codes with raw data, OPERATIONAL ADM/ASM advisories and unknown types, '
     'UPDATE with unknown optional attributes, with BGP-LS attribute 29 (node name, link name, the three opaque TLVs, unregistered TLVs) on an IPv4, IPv6 '
-    'or BGP-LS route, with Prefix-SID attribute 40 (unregistered TLVs, SRv6 L2/L3 service with unregistered sub-TLVs and sub-sub-TLVs); every peer-chosen '
-    'string drawn from a hostile pool (quotes, backslashes, LF, CRLF, NUL, DEL, C0/C1 controls, U+2028/9, non-ASCII, invalid and truncated UTF-8, JSON and '
-    'text event fragments, 255 octets) and rendered beside its benign twin (same lengths, all "a"). '
+    'or BGP-LS route, with Prefix-SID attribute 40 (unregistered TLVs, SRv6 L2/L3 service with unregistered sub-TLVs and sub-sub-TLVs), with an SR Policy '
+    'tunnel encapsulation (policy name, candidate path name, unregistered sub-TLV and tunnel type); every peer-chosen string drawn from a hostile pool '
+    '(quotes, backslashes, LF, CRLF, NUL, DEL, C0/C1 controls, U+2028/9, non-ASCII, invalid and truncated UTF-8, JSON and text event fragments, 255 octets) '
+    'and rendered beside its benign twin (same lengths, all "a"). '
     'corpus-render: every qa/encoding raw message and qa/decoding vector (plus fixed KEEPALIVE / ROUTE-REFRESH / OPERATIONAL / NOTIFICATION bodies), '
-    'unmodified and after 1-4 structure-aware edits (byte set/flip/insert/delete/duplicate inside one attribute value or the NLRI field, attribute '
-    'splice / add / drop / duplicate / flag flip from the corpus bank, outer lengths re-computed), asn4 and add-path of the session toggled; what '
-    'Message.unpack accepts is rendered. Each decoded message goes through Response.JSON (v6), V4.JSON, V4.Text and Response.Text, as parsed event '
-    '(with and without header/body = consolidate on/off), as packets event, OPENs also as negotiated event, NOTIFICATIONs also as down event, and every '
-    'string through the real Processes.write in async queue mode. '
+    'unmodified and after 1-4 structure-aware edits (byte set/flip/insert/delete/duplicate inside one attribute value or the NLRI field; TLV-tree edits '
+    '- duplicate, delete, retype, graft, hostile value - inside Prefix-SID, Tunnel-Encap, BGP-LS attributes and BGP-LS/EVPN/MVPN NLRIs with every enclosing '
+    'length re-computed; attribute splice / add / drop / duplicate / flag flip from the corpus bank), asn4 and add-path of the session toggled. '
+    'tlv-trees: Prefix-SID / Tunnel-Encap / BGP-LS attribute values and BGP-LS / EVPN / MVPN NLRI fields assembled level by level from the bank of every '
+    'TLV the corpus holds plus synthetic ones (repeats, unregistered types, hostile or extreme leaf values), and flat attributes of fixed-size records '
+    '(extended communities incl. NaN / infinite rates, IPv6 extended communities, large communities, AIGP, PMSI). '
+    'atheris-render (thorough tier): libFuzzer on the same decode-render-judge function, seeded with the vectors and the witnesses. '
+    'The witnesses of vlib/c13_findings.py (one minimal input per known root cause) run as enumerated cases in every tier. '
+    'What Message.unpack accepts goes through Response.JSON (v6), V4.JSON, V4.Text and Response.Text, as parsed event (with and without header/body = '
+    'consolidate on/off), as packets event, OPENs also as negotiated event, NOTIFICATIONs also as down event, and every string through the real '
+    'Processes.write in async queue mode. '
     'Non-trivial = the message decoded and carried >= 1 peer-chosen string or >= 1 attribute / NLRI outside the IP families'
 )
+def _atheris_available() -> bool:
+    try:
+        import atheris  # noqa: F401
+
+        return True
+    except Exception:  # noqa: BLE001 - the Hypothesis engines do not need it
+        return False
+
+
 ASSUMPTIONS = [
     'the encoders are called with the objects Processes._open/_update/... hand them (Update -> .data, EOR as is, operational.category); header = marker+length+type, body = the message body',
     'Response.Text is rendered although Processes._start never selects it (API v6 is JSON only): problems seen only there carry the encoder name text6',
     'not demanded: the values themselves (C02); trailing blank lines of a text event; the ` header .. body ..` line of a consolidated text update is the documented packet line',
     'a peer string may legitimately show as text (UTF-8, undecodable parts replaced, CR/LF blanked) or as hex; field-forged compares key paths + JSON types with the benign twin of the same length',
     'an input Message.unpack refuses (Notify or any exception) is outside this property (C03 / C08 decide those): counted as refused:*',
-    'json6 and json4 (text4 and text6) showing the same clause on the same object share one signature json:* (text:*): V4.JSON delegates to JSON',
+    'json6 and json4 (text4 and text6) showing the same clause on the same object share one signature json:* (text:*), all four all:*: V4.JSON and V4.Text delegate to JSON',
+    'NaN / Infinity as bare words are not JSON (RFC 8259 section 6) although Python reads them back: clause non-json-number',
+    'a duplicate-key / unparseable signature names the key path of the offending object (numbers and addresses normalised), a text one the event kind only: '
+    'every non-ASCII character in a text event comes through the one oneline() + ASCII-strict write() pair',
+    'atheris engine: ' + ('atheris importable' if _atheris_available() else 'ATHERIS NOT IMPORTABLE - only the Hypothesis engines run'),
 ]
+
+QUICK_SHARDS = 6
 
 TOLERATED = [p for p in os.environ.get('VERIF_C13_KNOWN', '').split(',') if p]
 _KNOWN: list = []
@@ -89,7 +116,7 @@ def session(asn4: bool = True, addpath: bool = False, base: int = 1, extnh: bool
             local_as=65000,
             peer_as=hostile.PEER_AS,
             families=['all'],
-            capability={'asn4': 'enable' if asn4 else 'disable', 'add-path': 'send/receive' if addpath else 'disable', 'operational': 'enable', 'extended-message': 'enable', 'route-refresh': 'enable', 'nexthop': 'enable' if extnh else 'disable'},
+            capability={'asn4': 'enable' if asn4 else 'disable', 'add-path': 'send/receive' if addpath else 'disable', 'operational': 'enable', 'aigp': 'enable', 'extended-message': 'enable', 'route-refresh': 'enable', 'nexthop': 'enable' if extnh else 'disable'},
             addpath_families=None,
             nexthop=['ipv4 unicast ipv6', 'ipv4 mpls-vpn ipv6', 'ipv6 unicast ipv4'] if extnh else None,
         )
@@ -321,8 +348,91 @@ def check_corpus(case: dict) -> dict:
     return {'nontrivial': nontrivial, 'classes': sorted(set(classes)), 'sample': {'seed': case['seed'], 'ops': case['ops']}}
 
 
+# ---------------------------------------------------------------------------- engine 4: atheris campaign (thorough tier)
+
+ATHERIS = _atheris_available()
+
+HERE = os.path.dirname(os.path.dirname(os.path.abspath(__file__)))
+FUZZ_TARGET = os.path.join(HERE, 'fuzz', 'fuzz_render.py')
+
+
+def run_campaign(seed: int, runs: int) -> dict:
+    """one libFuzzer process on a fresh temporary corpus seeded from the qa messages and the witnesses"""
+    work = tempfile.mkdtemp(prefix='c13-fuzz-')
+    try:
+        seeds = os.path.join(work, 'corpus')
+        env = dict(os.environ)
+        env.update(
+            PYTHONPATH=os.pathsep.join([exa.REPO_SRC, HERE, os.path.join(HERE, '.deps')]),
+            VERIF_REPO_SRC=exa.REPO_SRC,
+            VERIF_C13_FUZZ_CONTINUE='1',
+            PYTHONHASHSEED='0',
+            exabgp_log_enable='false',
+        )
+        made = subprocess.run([sys.executable, FUZZ_TARGET, '--write-seeds', seeds], env=env, cwd=HERE, stdout=subprocess.PIPE, stderr=subprocess.PIPE, timeout=300)
+        if made.returncode != 0:
+            raise RuntimeError(f'cannot write the seed corpus: {made.stderr.decode()[-1500:]}')
+        cmd = [sys.executable, FUZZ_TARGET, seeds, f'-runs={runs}', f'-seed={seed}', '-max_len=4096', '-timeout=60', f'-artifact_prefix={work}/']
+        proc = subprocess.run(cmd, env=env, cwd=HERE, stdout=subprocess.PIPE, stderr=subprocess.STDOUT, timeout=max(900, runs // 50))
+        text = proc.stdout.decode(errors='replace')
+        found, stats = [], {}
+        for line in text.splitlines():
+            if line.startswith('C13-FINDING '):
+                found.append(json.loads(line[len('C13-FINDING ') :]))
+            elif line.startswith('C13-STATS '):
+                stats = json.loads(line[len('C13-STATS ') :])
+        if proc.returncode != 0 or not stats:
+            raise RuntimeError(f'fuzz target ended badly (rc={proc.returncode}): {text[-2000:]}')
+        return {'findings': found, 'stats': stats}
+    finally:
+        shutil.rmtree(work, ignore_errors=True)
+
+
+def check_campaign(case: dict) -> dict:
+    if not ATHERIS:
+        return {'nontrivial': False, 'classes': ['atheris:not-importable-hypothesis-engines-only']}
+    result = run_campaign(int(case['seed']), int(case['runs']))
+    stats = result['stats']
+    classes = ['atheris:campaign', f'atheris:execs:{stats["execs"] // 1000}k', f'atheris:decoded:{stats["decoded"] // 1000}k']
+    fresh = []
+    for f in result['findings']:
+        sig = f['signature']
+        if any(fnmatch.fnmatchcase(sig, p) for p in TOLERATED):
+            classes.append(f'tolerated:{sig}')
+            continue
+        if any(sig_matches(e, sig) for e in known_entries()):
+            classes.append(f'atheris:listed:{sig}')
+            continue
+        # a finding must replay through the corpus-render engine with the same root cause
+        try:
+            check_corpus(dict(f['case']))
+            replayed = None
+        except Violation as v:
+            replayed = v.signature
+        if replayed != sig:
+            raise Violation('atheris:finding-does-not-replay', f'{sig} replays as {replayed}: {json.dumps(f["case"])}')
+        fresh.append(f)
+    if fresh:
+        first = fresh[0]
+        others = '; '.join(f'{f["signature"]} -> {json.dumps(f["case"])}' for f in fresh[1:])
+        raise Violation(first['signature'], f'{first["message"]} | replay with engine corpus-render: {json.dumps(first["case"])}' + (f' | also: {others}' if others else ''))
+    return {'nontrivial': stats.get('decoded', 0) > 0, 'classes': classes, 'sample': {'seed': case['seed'], 'runs': case['runs'], 'stats': {k: stats[k] for k in ('execs', 'decoded', 'refused', 'violation', 'seconds') if k in stats}}}
+
+
+def campaign_cases():
+    from hypothesis import strategies as st
+
+    runs = int(os.environ.get('VERIF_C13_FUZZ_RUNS', '150000'))  # development: a shorter campaign
+    # Hypothesis starts from the simplest value: without the shard number every shard would run the same campaign
+    argv = sys.argv
+    shard = int(argv[argv.index('--shard') + 1].split('/')[0]) if '--shard' in argv and argv.index('--shard') + 1 < len(argv) else 0
+    return st.integers(0, 3).map(lambda i: {'seed': 1300 + 4 * shard + i, 'runs': runs})
+
+
 ENGINES = [
-    Engine('hostile-strings', hostile_cases, check_hostile, quick=450, thorough=12000, batch=150, fixed_cases=lambda: findings.cases_for('hostile-strings')),
-    Engine('corpus-render', corpus.mutated_messages, check_corpus, quick=450, thorough=20000, batch=150, fixed_cases=lambda: corpus.seed_cases() + findings.cases_for('corpus-render')),
-    Engine('tlv-trees', trees.tree_messages, check_corpus, quick=450, thorough=20000, batch=150),
+    Engine('hostile-strings', hostile_cases, check_hostile, quick=500, thorough=12000, batch=250, fixed_cases=lambda: findings.cases_for('hostile-strings')),
+    Engine('corpus-render', corpus.mutated_messages, check_corpus, quick=650, thorough=20000, batch=325, fixed_cases=lambda: corpus.seed_cases() + findings.cases_for('corpus-render')),
+    Engine('tlv-trees', trees.tree_messages, check_corpus, quick=550, thorough=20000, batch=275),
+    # thorough only (the instrumented start alone takes about a minute): 16 shards x 1 campaign x 150 000 executions
+    Engine('atheris-render', campaign_cases, check_campaign, quick=0, thorough=1, batch=1, thorough_s=1800.0),
 ]
